@@ -11,6 +11,7 @@ import argparse, concurrent.futures, copy, fcntl, glob, hashlib, json, os, re, s
 VERIF = os.path.dirname(os.path.dirname(os.path.abspath(__file__)))
 REPO = os.environ.get("VERIF_REPO", "/repo")
 BUILD = os.path.join(VERIF, ".build")
+OUT = os.environ.get("VERIF_OUT", VERIF)  # where evidence/ and replays/ go (self-tests redirect it)
 GO = "go1.26.8"
 NCPU = int(os.environ.get("VERIF_WORKERS", "16"))
 
@@ -312,8 +313,8 @@ def candidates(case):
                     yield c
     # simpler strings
     for p, v in paths(root):
-        if p and isinstance(v, str) and len(v) > 1 and p[-1] in ("val", "text", "input") and not v.startswith("\u0000hex:"):
-            for nv in (v[:len(v) // 2], v[1:], v[:-1]):
+        if p and isinstance(v, str) and len(v) > 1 and (p[-1] in ("val", "text", "input", "query") or "inputs" in p or "args" in p) and not v.startswith("\u0000hex:"):
+            for nv in (v[:len(v) // 2], v[len(v) // 2:], v[1:], v[:-1]):
                 c = copy.deepcopy(root)
                 put(c, p, nv)
                 yield c
@@ -463,7 +464,7 @@ def main():
         rc = 0
         reported = []
         shrink_budget = tcfg.get("shrink_s", 60)
-        os.makedirs(os.path.join(VERIF, "replays", prop), exist_ok=True)
+        os.makedirs(os.path.join(OUT, "replays", prop), exist_ok=True)
         for sig in sorted(found)[:4]:
             d = found[sig][0]
             case = d["case"]
@@ -481,7 +482,7 @@ def main():
             case["expect_sig"] = sig
             case["note"] = (final.get("detail") or "")[:1500]
             kf = [k for k in known if k["property"] == prop and k["sig"] == sig]
-            rp = os.path.join(VERIF, "replays", prop, "%s-%d.json" % (re.sub(r"[^A-Za-z0-9_.-]", "_", sig), case["seed"]))
+            rp = os.path.join(OUT, "replays", prop, "%s-%d.json" % (re.sub(r"[^A-Za-z0-9_.-]", "_", sig), case["seed"]))
             json.dump(case, open(rp, "w"), indent=1)
             if kf:
                 print("KNOWN-FINDING: property=%s sig=%s %s (replay=%s)" % (prop, sig, kf[0]["text"], rp))
@@ -512,8 +513,8 @@ def main():
             "assumptions": cfg.get("assumptions", []),
         }
         ev["coverage"].update(cfg.get("coverage_extra", {}))
-        os.makedirs(os.path.join(VERIF, "evidence"), exist_ok=True)
-        json.dump(ev, open(os.path.join(VERIF, "evidence", prop + ".json"), "w"), indent=1)
+        os.makedirs(os.path.join(OUT, "evidence"), exist_ok=True)
+        json.dump(ev, open(os.path.join(OUT, "evidence", prop + ".json"), "w"), indent=1)
         print("done %s: runs=%d distinct_nontrivial=%d interleavings=%d wall=%.1fs rc=%d" % (prop, agg["runs"], nt, len(agg["ils"]), wall, rc))
         if agg["runs"] == 0:
             die2("no runs executed")
